@@ -11,6 +11,7 @@
 (*   Undill(a) System(autogen_stale = a): import the package, compare md5,    *)
 (*             regenerate stale models or report them                        *)
 (*   Corrupt   the generated file is damaged (not importable)                *)
+(*   Truncate  a writer died mid-file: an importable prefix is left            *)
 (*   Delete    the generated file is removed                                 *)
 (* HashCovers = FALSE models a definition edit that the checksum does not    *)
 (* see: such code would be used silently (negative control).                 *)
@@ -26,6 +27,7 @@ VARIABLES modelVer,   \* content of the model definition in the source tree (an 
           nops, lastOp
 vars == <<modelVer, hashVer, disk, loaded, reported, raised, nops, lastOp>>
 Missing == [kind |-> "missing", ver |-> 0, hv |-> 0]
+Partial(v, h) == [kind |-> "partial", ver |-> v, hv |-> h]    \* a writer died: the file ends at a statement boundary
 Broken == [kind |-> "broken", ver |-> 0, hv |-> 0]
 File(v, h) == [kind |-> "file", ver |-> v, hv |-> h]
 Init == /\ modelVer = 1 /\ hashVer = 1 /\ disk = File(1, 1) /\ loaded = 0 /\ reported = FALSE /\ raised = FALSE
@@ -43,6 +45,9 @@ Undill(autogen) ==
     /\ Op("undill")
     /\ CASE disk.kind = "broken" ->                                  \* the import error propagates
               loaded' = 0 /\ reported' = FALSE /\ raised' = TRUE /\ UNCHANGED disk
+         [] disk.kind = "partial" ->                                 \* importable but incomplete: "pycode is broken",
+              /\ disk' = File(modelVer, hashVer)                      \* everything is generated again whatever autogen says
+              /\ loaded' = modelVer /\ reported' = FALSE /\ raised' = FALSE
          [] disk.kind = "missing" \/ (disk.kind = "file" /\ disk.hv # hashVer) ->
               IF autogen
               THEN /\ disk' = File(modelVer, hashVer) /\ reported' = TRUE
@@ -55,11 +60,15 @@ Undill(autogen) ==
          [] OTHER -> loaded' = disk.ver /\ reported' = FALSE /\ raised' = FALSE /\ UNCHANGED disk
     /\ UNCHANGED <<modelVer, hashVer>>
 Corrupt == Op("corrupt") /\ disk' = Broken /\ UNCHANGED <<modelVer, hashVer, loaded, reported, raised>>
+(* a writer is killed while writing the file: what is left is a prefix (cut at a statement boundary it still imports, *)
+(* and still carries the checksum line, which is written first)                                                      *)
+Truncate == /\ Op("truncate") /\ disk.kind = "file" /\ disk' = Partial(disk.ver, disk.hv)
+            /\ UNCHANGED <<modelVer, hashVer, loaded, reported, raised>>
 Delete == Op("delete") /\ disk' = Missing /\ UNCHANGED <<modelVer, hashVer, loaded, reported, raised>>
-Next == Edit \/ Prepare \/ (\E a \in BOOLEAN : Undill(a)) \/ Corrupt \/ Delete
+Next == Edit \/ Prepare \/ (\E a \in BOOLEAN : Undill(a)) \/ Corrupt \/ Truncate \/ Delete
 Spec == Init /\ [][Next]_vars
 TypeOK == /\ modelVer \in 1..MaxVer /\ hashVer \in 1..MaxVer /\ loaded \in 0..MaxVer
-          /\ disk.kind \in {"file", "broken", "missing"} /\ reported \in BOOLEAN /\ raised \in BOOLEAN
+          /\ disk.kind \in {"file", "broken", "missing", "partial"} /\ reported \in BOOLEAN /\ raised \in BOOLEAN
 (* C02: code that no longer matches the model is never silently used *)
 NeverSilentlyStale == (lastOp = "undill" /\ loaded # modelVer) => (reported \/ raised)
 (* C02: after generation, and after System() with automatic regeneration, the code of the current model runs *)
